@@ -315,7 +315,7 @@ Print Assumptions C03_dispatcher_finished_thread_logged_its_program.
    another began precedes it in the log: the explaining sequential run respects the real-time order of the calls.  With
    linearization (results = the sequential run's) and program order this is linearizability of the listener-management
    calls of the dispatcher machine *)
-From EV Require CLDispTime.
+From EV Require CLDispTime CLDispLin.
 
 Theorem C03_dispatcher_calls_take_effect_between_their_ends :
   forall prog sched,
@@ -352,6 +352,26 @@ Example C03_dispatcher_stamps_example :
   rev (CLDispTime.tcalls (snd (CLDispTime.trun_g (CLDispConc.dinit prog) CLDispTime.tg0 sched)))
   = [(2, 0, 0, 1); (0, 1, 1, 2); (1, 2, 2, 3); (0, 2, 3, 4); (2, 4, 4, 5)].
 Proof. vm_compute. reflexivity. Qed.
+
+(* in one statement: every execution of the dispatcher machine is linearizable.  There is a sequential run (the logged
+   sections, in log order, from the empty map) such that (1) the map the machine ends with and every result a call reported
+   are that run's, (2) it contains the calls of every finished thread in program order, one section per call, (3) it respects
+   real time: the section of a finished call lies between the call's ends, so a call that had ended when another began comes
+   first *)
+Theorem C03_dispatcher_machine_is_linearizable :
+  forall prog sched,
+    (forall t, Forall CLDispConc.call_wf (prog t)) ->
+    let c := CLDispConc.dcrun (CLDispConc.dinit prog) sched in
+    let seq := map CLDispConc.sec3 (CLDispConc.dlog c) in
+    let G := snd (CLDispTime.trun_g (CLDispConc.dinit prog) CLDispTime.tg0 sched) in
+    ((forall e, CLDisp.dget (CLDispConc.dmap c) e = CLDisp.dget (fst (CLDisp.drun CLDisp.d0 seq)) e) /\
+     map CLDispConc.res3 (CLDispConc.dlog c) = snd (CLDisp.drun CLDisp.d0 seq)) /\
+    (forall t, CLDispConc.finished c t -> CLDispOrder.logged_by t (CLDispConc.dlog c) = CLDispOrder.secs_of (prog t)) /\
+    (Forall (CLDispTime.call_ok (CLDispConc.dlog c)) (CLDispTime.tcalls G) /\
+     forall t1 b1 p1 e1 t2 b2 p2 e2,
+       In (t1, b1, p1, e1) (CLDispTime.tcalls G) -> In (t2, b2, p2, e2) (CLDispTime.tcalls G) -> e1 <= b2 -> p1 < p2).
+Proof. exact CLDispLin.dispatcher_machine_is_linearizable. Qed.
+Print Assumptions C03_dispatcher_machine_is_linearizable.
 
 (* WHAT A WALK CALLS (CLDispWalk.v).  A ghost runs beside the machine (CLDispWalk.gstep reads the configuration and never
    changes it: CLDispWalk.grun_machine) and projects the machine's steps onto the events of CLTrav: the head read of a walk
